@@ -3,7 +3,11 @@
 package verifh
 
 import (
+	"context"
 	"fmt"
+	"github.com/ory/keto/internal/driver"
+	"github.com/ory/keto/internal/driver/config"
+	"sort"
 	"strings"
 	"testing"
 
@@ -121,6 +125,45 @@ func suiteTypechk(t *testing.T, cfg cfgT) {
 		out.emit(fmt.Sprintf("tcmutant %s %d %d SRC %s", "traverse-target", idx, idx+len(marker), hx(msrc)), obs)
 		out.stat("corpus.d18")
 	}
+	// corpus: hand-written documents in which the namespaces declare DIFFERENT relations (the generator gives every
+	// namespace the same relation names), served with conforming relationships: no check on a declared relation may
+	// carry a schema error
+	for _, doc := range tcDocs {
+		for _, strict := range []bool{false, true} {
+			opts := []driver.TestRegistryOption{driver.WithOPL(doc.src), driver.WithConfig(config.KeyLimitMaxReadDepth, 12), driver.WithConfig(config.KeyLimitMaxReadWidth, 100)}
+			if strict {
+				opts = append(opts, driver.WithConfig(config.KeyNamespacesExperimentalStrictMode, true))
+			}
+			e := newEnv(t, opts...)
+			pool := newPool()
+			for _, x := range doc.names {
+				pool.add(x)
+			}
+			pool.addNet(e.nid, 1)
+			nm, _ := e.reg.Config(context.Background()).NamespaceManager()
+			loaded, _ := nm.Namespaces(context.Background())
+			sort.Slice(loaded, func(i, j int) bool { return loaded[i].Name < loaded[j].Name })
+			ee := &engineEnv{e: e, pool: pool, nss: loaded, strict: strict, gdepth: 12, width: 100}
+			ee.header(out)
+			var ts []*ketoapi.RelationTuple
+			for _, x := range doc.tuples {
+				tu, err := (&ketoapi.RelationTuple{}).FromString(x)
+				if err != nil {
+					t.Fatal(err)
+				}
+				ts = append(ts, tu)
+			}
+			ee.insert(t, ts)
+			ee.table(out)
+			for _, c := range doc.checks {
+				q, _ := (&ketoapi.RelationTuple{}).FromString(c)
+				out.emit(fmt.Sprintf("tcheck %s %d", fmtTuple(q), 0), ee.check(q, 0))
+				cases++
+			}
+			e.close()
+			out.stat("corpus.docs")
+		}
+	}
 	for cases < cfg.n {
 		hr := r.fork()
 		nss := genConfig(hr, hr.chance(1, 2))
@@ -176,4 +219,41 @@ func suiteTypechk(t *testing.T, cfg cfgT) {
 			cases++
 		}
 	}
+}
+
+type tcDoc struct {
+	src    string
+	names  []string
+	tuples []string
+	checks []string
+}
+
+var tcDocs = []tcDoc{
+	{ // traversal through SubjectSet<Group,"members">: the engine evaluates the target on Group, never on the members' namespace
+		src: `class User implements Namespace { related: { manager: User[] } }
+class Group implements Namespace {
+  related: { members: User[]; viewers: User[] }
+  permits = { view: (ctx: Context): boolean => this.related.viewers.includes(ctx.subject) }
+}
+class Doc implements Namespace {
+  related: { parents: SubjectSet<Group, "members">[] }
+  permits = { view: (ctx: Context): boolean => this.related.parents.traverse((p) => p.permits.view(ctx)) }
+}`,
+		names:  []string{"readme", "dev", "alice", "bob", "nobody"},
+		tuples: []string{"Doc:readme#parents@Group:dev#members", "Group:dev#members@User:alice#", "Group:dev#viewers@User:bob#", "User:alice#manager@User:bob#"},
+		checks: []string{"Doc:readme#view@User:bob#", "Doc:readme#view@User:alice#", "Doc:readme#view@User:nobody#", "Group:dev#view@User:bob#", "Doc:readme#parents@User:alice#"},
+	},
+	{ // a union type whose members declare different relations; includes over a subject-set typed relation
+		src: `class User implements Namespace {}
+class Team implements Namespace { related: { members: (User | SubjectSet<Team, "members">)[]; leads: User[] } }
+class Org implements Namespace { related: { admins: (User | SubjectSet<Team, "leads">)[]; parents: Org[] }
+  permits = { manage: (ctx: Context): boolean => this.related.admins.includes(ctx.subject) || this.related.parents.traverse((o) => o.permits.manage(ctx)) } }
+class Repo implements Namespace { related: { owners: (SubjectSet<Team, "members"> | SubjectSet<Org, "admins">)[]; org: Org[] }
+  permits = { push: (ctx: Context): boolean => this.related.owners.includes(ctx.subject) || this.related.org.traverse((o) => o.permits.manage(ctx)),
+              read: (ctx: Context): boolean => this.permits.push(ctx) || !this.related.owners.includes(ctx.subject) } }`,
+		names: []string{"core", "web", "acme", "root", "r1", "ann", "ben", "cy"},
+		tuples: []string{"Team:core#members@User:ann#", "Team:web#members@Team:core#members", "Team:web#leads@User:ben#", "Org:acme#admins@Team:web#leads", "Org:acme#parents@Org:root#",
+			"Org:root#admins@User:cy#", "Repo:r1#owners@Team:web#members", "Repo:r1#owners@Org:acme#admins", "Repo:r1#org@Org:acme#"},
+		checks: []string{"Repo:r1#push@User:ann#", "Repo:r1#push@User:ben#", "Repo:r1#push@User:cy#", "Repo:r1#read@User:ann#", "Org:acme#manage@User:cy#", "Org:acme#manage@User:ann#", "Team:web#members@User:ann#", "Repo:r1#owners@User:ben#"},
+	},
 }
